@@ -45,8 +45,10 @@ func c31() int {
 		faults []fault
 		dry    bool
 		nat    bool
+		st     *stream
 	}
 	var jobs []job
+	commitPoints := 0
 	for _, p := range probes() {
 		clean := runTrial(ctx, bs[p.Base], p, nil, false)
 		if !clean.res.OK {
@@ -54,6 +56,28 @@ func c31() int {
 			continue
 		}
 		jobs = append(jobs, job{p: p}, job{p: p, dry: true})
+		// the client goes away BETWEEN two driver calls: right before every commit point of
+		// the store (after the last statement of the transaction, before the sql COMMIT /
+		// the release of the nested savepoint); thorough: at the start of every store span
+		seen := map[spanPoint]bool{}
+		for _, sp := range clean.spans {
+			if seen[sp] || (sp.Name != "Commit" && !r.Thorough()) {
+				continue
+			}
+			seen[sp] = true
+			if sp.Name == "Commit" {
+				commitPoints++
+			}
+			jobs = append(jobs, job{p: p, faults: []fault{{At: sp.At, Kind: "gone", Span: sp.Name}}})
+		}
+		// the bulk sent as a stream: complete, and cut after each element by a client that
+		// goes away while the server waits for the next element
+		if p.Kind != "single" {
+			jobs = append(jobs, job{p: p, st: &stream{Cut: len(p.Ops)}})
+			for k := 1; k <= len(p.Ops); k++ {
+				jobs = append(jobs, job{p: p, st: &stream{Cut: k, Gone: true}})
+			}
+		}
 		for i, c := range clean.calls {
 			switch c.Op {
 			case "commit":
@@ -70,11 +94,12 @@ func c31() int {
 	}
 	var mu sync.Mutex
 	evaluations, withEvents, committedNoFault, commitFaults := 0, 0, 0, 0
+	goneRuns, goneRolled, goneFailed, streamedRuns, streamedGone := 0, 0, 0, 0, 0
 	distinct := map[string]bool{}
 	samples := ev.NewSamples(6)
 	complete := parallelDo(len(jobs), r.Expired, func(i int) {
 		j := jobs[i]
-		t := runTrial(ctx, bs[j.p.Base], j.p, j.faults, j.dry)
+		t := runTrialOpts(ctx, bs[j.p.Base], j.p, j.faults, j.dry, j.st)
 		if t.res.Class == "ENGINE" {
 			r.EngineError(fmt.Sprintf("%s/%s %v: %v", j.p.Base, j.p.Name, j.faults, t.res.Err))
 			return
@@ -82,12 +107,30 @@ func c31() int {
 		label := fmt.Sprintf("%s/%s", j.p.Base, j.p.Name)
 		fl := fmt.Sprint(j.faults)
 		replay := map[string]any{"base": j.p.Base, "probe": j.p.Name, "ops": j.p.Ops, "kind": j.p.Kind, "faults": j.faults, "dryRun": j.dry}
+		wantGone := j.st != nil && j.st.Gone
+		for _, f := range j.faults {
+			wantGone = wantGone || f.Kind == "gone"
+		}
+		if j.st != nil {
+			fl = fmt.Sprintf("[streamed, %d of %d elements sent, client gone: %v]", j.st.Cut, len(j.p.Ops), j.st.Gone)
+			replay["stream"] = j.st
+		}
+		if t.stuck != "" {
+			r.EngineError(fmt.Sprintf("%s %s: %s", label, fl, t.stuck))
+			return
+		}
+		if wantGone && !t.goneFired {
+			r.EngineError(fmt.Sprintf("%s %s: the point where the client goes away was not reached (the fault-free trace of the probe is not reproducible)", label, fl))
+			return
+		}
 		committed := t.logsA - t.logsB // one log per committed write
 		if j.dry {
 			committed = 0
 		}
 		mode := "single"
 		switch {
+		case j.st != nil:
+			mode = j.p.Kind + "-streamed"
 		case j.p.Kind != "single":
 			mode = j.p.Kind
 		case j.p.Base == "pristine":
@@ -97,6 +140,8 @@ func c31() int {
 		switch {
 		case j.dry:
 			situation = "dry-run"
+		case j.st != nil && j.st.Gone:
+			situation = "client-gone"
 		case len(j.faults) > 0:
 			situation = "fault:" + j.faults[0].Kind
 		case j.nat:
@@ -113,6 +158,21 @@ func c31() int {
 		}
 		if strings.HasPrefix(situation, "fault:") {
 			commitFaults++
+		}
+		if j.st != nil {
+			streamedRuns++
+		}
+		if t.goneFired {
+			goneRuns++
+			if t.goneRolled {
+				goneRolled++
+				if j.st != nil {
+					streamedGone++
+				}
+				if !t.res.OK {
+					goneFailed++
+				}
+			}
 		}
 		mu.Unlock()
 		if len(t.events) != committed {
@@ -137,18 +197,38 @@ func c31() int {
 				r.Violation("C31:event-kinds:"+mode, fmt.Sprintf("%s: events %v, want %v", label, got, expectedKinds(j.p)), replay)
 			}
 		}
-		samples.Add(map[string]any{"probe": label, "mode": mode, "situation": situation, "faults": fl, "committed_writes": committed, "events": len(t.events)})
+		samples.Add(map[string]any{"probe": label, "mode": mode, "situation": situation, "faults": fl, "committed_writes": committed, "events": len(t.events), "request_ok": t.res.OK, "client_gone_rollback_observed": t.goneRolled})
 	})
 	if withEvents == 0 || commitFaults == 0 {
 		r.EngineError("vacuous: no event observed or no commit fault injected")
 	}
+	if complete {
+		switch {
+		case commitPoints == 0:
+			r.EngineError("vacuous: no commit point of the store was observed (store span hook not called)")
+		case goneRolled == 0:
+			r.EngineError("vacuous: the client never went away while a sql transaction of its request was open (no rollback by database/sql observed before the commit)")
+		case streamedGone == 0:
+			r.EngineError("vacuous: no streamed atomic bulk lost its client between two elements with its transaction open")
+		case goneFailed == 0 && r.ViolationCount() == 0:
+			r.EngineError("vacuous: no request whose transaction was rolled back under it (client gone) reported a failure: the commit of a rolled back transaction was never attempted")
+		}
+	}
 	return r.Finish(ev.Coverage{
 		"evaluations":         evaluations,
 		"distinct_nontrivial": len(distinct),
-		"rule":                "every write kind x {single write on an in-use ledger, first write on an initializing ledger (state-tracker path: outer transaction + ledger lock + nested savepoint), atomic bulk, non-atomic bulk} x {success, dry run, failure of EVERY COMMIT (error and dropped connection), statement failure at every INSERT/RELEASE (thorough: at every statement), 17 business failures}; a recording Listener notes for each event whether the write it describes is visible to a fresh database session at that very moment; oracle: number of events == number of logs committed by the request, event kinds match, and every event fired after the commit that made its write durable",
+		"rule":                "every write kind x {single write on an in-use ledger, first write on an initializing ledger (state-tracker path: outer transaction + ledger lock + nested savepoint), atomic bulk, non-atomic bulk} x {success, dry run, failure of EVERY COMMIT (error and dropped connection), statement failure at every INSERT/RELEASE (thorough: at every statement), CLIENT GONE right before EVERY commit point of the store (thorough: at the start of every store span): the request context is cancelled BETWEEN two driver calls, after the last statement of the transaction and before the sql COMMIT, and database/sql's own rollback of the transaction is awaited (driver-level event) before the request goes on, so that the commit finds a transaction that is already gone, 17 business failures}; plus every bulk sent as a STREAM (one element at a time, result awaited) x {complete, client gone after element k for every k with the stream then closed as the streamed handlers do}; a recording Listener notes for each event whether the write it describes is visible to a fresh database session at that very moment; oracle: number of events == number of logs committed by the request, event kinds match, and every event fired after the commit that made its write durable",
 		"samples":             samples.List(),
 		"runs_with_events":    withEvents,
 		"fault_runs":          commitFaults,
-		"exhaustive":          complete,
-	}, []string{pgsimAssumption})
+		"store_commit_points": commitPoints,
+		"client_gone_runs":    goneRuns,
+		"client_gone_runs_with_open_transaction_rolled_back_by_database_sql": goneRolled,
+		"client_gone_runs_reported_as_failed":                                goneFailed,
+		"streamed_bulk_runs":                                                 streamedRuns,
+		"streamed_bulk_runs_client_gone_in_open_transaction":                 streamedGone,
+		"exhaustive": complete,
+	}, []string{pgsimAssumption, goneAssumption})
 }
+
+var goneAssumption = "client gone: the cancellation of the request context is placed at the start of a span of the ledger store (OpenTelemetry tracer given to the store factory, otherwise the no-op tracer) or between two elements of a streamed bulk; what follows is the real database/sql (Tx.awaitDone rolls the transaction back through the driver, Tx.Commit then answers sql.ErrTxDone), not a model; the trial waits for the driver-level rollback (bounded liveness guard, an ENGINE error when it expires), so no verdict depends on timing"
